@@ -464,6 +464,11 @@ pub fn to_duration(num: &Number) -> Result<Duration, String> {
         return Err("Expected seconds".to_string());
     }
     let max = Numeric::from(i64::max_value() / 1000);
+    if let Numeric::Float(f) = num.value {
+        if f.is_nan() {
+            return Err("Expected a duration, got NaN".to_string());
+        }
+    }
     if num.value.abs() > max {
         return Err(format!(
             "Implementation error: Number is out of range ({:?})",
